@@ -126,7 +126,8 @@ def r14_2(run):
             continue
         v = getattr(cfg.stmt[d], "value", None)
         dt = kw(v, "dtype") if isinstance(v, ast.Call) else None
-        ok = _like_self_data(v) or (dt is not None and norm(dt) == "self.dtype")
+        ok = _like_self_data(v) or (dt is not None and norm(dt) == "self.dtype") or (
+            isinstance(v, ast.Call) and isinstance(v.func, ast.Attribute) and v.func.attr == "astype" and v.args and norm(v.args[0]) == "self.dtype")
         run.ob("R14.2", loc(fi, cfg.stmt[d]), fi.short, f"seed definition {norm(v)[:60] if v is not None else '?'} has the tensor's dtype", ok,
                "*_like(self.data) or dtype=self.dtype" if ok else "the stored seed can have a dtype different from the tensor's")
     # (1b) type: the caller's object (possibly a Tensor) enters the seed only through asarray(...), which yields a plain ndarray
